@@ -310,9 +310,22 @@ pub fn assemble(sc: &Scenario) -> Result<Assembled, String> {
     let mut proposals: Vec<([u8; 28], usize)> = vec![];
     // spend: (input, script idx, datum)
     let mut spends: Vec<(TransactionInput, usize, PlutusData)> = vec![];
-    let fresh_input = |rng: &mut Rng| TransactionInput {
-        transaction_id: pallas_crypto_hash32(&rng.bytes(32)),
-        index: rng.below(4),
+    // Half of the inputs are siblings: further outputs of a transaction the body already refers
+    // to, with output indices of different magnitudes, so that the canonical order of inputs is
+    // decided by the index as a number (9 < 10 < 100, 255 < 256) and not only by the hash.
+    let mut seen_inputs: Vec<TransactionInput> = vec![];
+    let mut fresh_input = |rng: &mut Rng| loop {
+        const INDICES: [u64; 12] = [0, 1, 2, 3, 9, 10, 11, 20, 99, 100, 255, 256];
+        let transaction_id = if !seen_inputs.is_empty() && rng.below(2) == 0 {
+            seen_inputs[rng.below(seen_inputs.len() as u64) as usize].transaction_id
+        } else {
+            pallas_crypto_hash32(&rng.bytes(32))
+        };
+        let candidate = TransactionInput { transaction_id, index: INDICES[rng.below(12) as usize] };
+        if !seen_inputs.contains(&candidate) {
+            seen_inputs.push(candidate.clone());
+            break candidate;
+        }
     };
 
     for (i, s) in sc.scripts.iter().enumerate() {
@@ -365,7 +378,9 @@ pub fn assemble(sc: &Scenario) -> Result<Assembled, String> {
         });
     }
     // Canonical body order (what the ledger would see); indices follow it.
-    inputs.sort();
+    // The ledger's order of inputs, stated here rather than taken from a derived `Ord`: by the
+    // bytes of the transaction id, then by the output index as a number.
+    inputs.sort_by(|a, b| (a.transaction_id.as_ref() as &[u8], a.index).cmp(&(b.transaction_id.as_ref() as &[u8], b.index)));
     inputs.dedup();
     mint.sort_by(|a, b| a.0.cmp(&b.0));
     {
